@@ -1,5 +1,6 @@
 import Treepath.Proofs.NodeLemmas
 import Treepath.Proofs.RoundTrip
+import Treepath.Proofs.Distinct
 /- C11 — a Match tells the truth about where its value lives -/
 namespace Treepath.C11
 variable {α : Type}
@@ -128,5 +129,26 @@ theorem keyWc_keeps_consistency (n m : MNode J) (hn : Consistent n) (hk : n.data
   refine ⟨hn, ?_⟩
   simp only [lookupName, hd]
   exact lookup_of_mem_nodup es k x hx (by simpa [J.KeysNodup, hd] using hk)
+
+/-- **a query with at most one recursive step and no comma-delimited step never reports the
+same location twice**: for every document whose dicts have unique keys (hereditarily — what
+Python dicts guarantee), every path built from keys, indices, slices, the three wildcards and
+value-returning filters, with at most one `rec` anywhere, the locations of the answer are
+pairwise distinct.  (With a comma list `path["a","a"]`, or two recursive steps, repeats are
+the specified behaviour.) -/
+theorem never_the_same_location_twice (p : List (Step J)) (d : J) (hd : d.WFK) (hq : Quiet p)
+    (hshape : (∀ s ∈ p, s.plain = true) ∨
+      ∃ pre post, p = pre ++ Step.recur :: post ∧ (∀ s ∈ pre, s.plain = true) ∧ (∀ s ∈ post, s.plain = true)) :
+    ((eval p (.root d)).map MNode.loc).Nodup :=
+  locations_distinct p d hd hq hshape
+
+/-- non-vacuity: the premises hold of a real document and a path with a wildcard before and
+after the recursive step -/
+example : (J.obj [("a", .arr [.int 1, .obj [("b", .int 2)]]), ("c", .obj [])]).WFK := by
+  simp [J.WFK, J.WFKvs, J.WFList]
+
+/-- … and the restriction is needed: two recursive steps report a location twice -/
+example : ((eval [.recur, .keyWc, .recur] (.root (.obj [("a", .obj [("b", .obj [("c", .int 1)])])]))).map MNode.pathStr)
+    = ["$.a", "$.a.b", "$.a.b.c", "$.a.b", "$.a.b.c"] := by decide
 
 end Treepath.C11
